@@ -346,7 +346,10 @@ TYPE_TABLE = [("str-0011", "0011"), ("None", None), ("list-of-str", ["a", "b", "
               ("complex", [0j, 0j, 1j, 1j]), ("generator-ok", (x for x in [0, 0, 1, 1])),
               # unsorted data in numpy kinds whose differences do not go negative (unsigned) or do not compare (NaN)
               ("uint8-unsorted", np.array([0, 0, 2, 1, 3, 3], dtype=np.uint8)), ("uint64-unsorted", np.array([0, 0, 5, 3, 7, 7], dtype=np.uint64)),
-              ("nan-interior", [0.0, 0.0, float("nan"), 1.0, 1.0]), ("float-unsorted-array", np.array([0.0, 0.0, 0.7, 0.2, 1.0, 1.0]))]
+              ("nan-interior", [0.0, 0.0, float("nan"), 1.0, 1.0]),
+              # an interior knot of multiplicity degree + 2 to the RIGHT of one of full multiplicity degree + 1 (a scan that stops at the first full one misses it)
+              ("overfull-after-full-p1", [0, 0, 1, 1, 2, 2, 2, 3, 3]), ("overfull-after-full-p2", [0, 0, 0, 1, 1, 1, 2, 2, 2, 2, 3, 3, 3]),
+              ("overfull-after-full-p3", [0] * 4 + [1] * 4 + [2] * 5 + [3] * 4), ("float-unsorted-array", np.array([0.0, 0.0, 0.7, 0.2, 1.0, 1.0]))]
 
 
 def task_types():
